@@ -213,6 +213,10 @@ def stages():
         "TotalPowerConstraint": (lambda: TotalPowerConstraint(2.0), False),
         "AveragePowerConstraint": (lambda: AveragePowerConstraint(0.5), False),
         "PAPRConstraint": (lambda: PAPRConstraint(max_papr=3.0), False),
+        # tight limits: the clipping loop runs into its late, more aggressive stage (more than 8 rounds)
+        "PAPRConstraint(1.3)": (lambda: PAPRConstraint(max_papr=1.3), False),
+        "PAPRConstraint(1.2)": (lambda: PAPRConstraint(max_papr=1.2), False),
+        "PAPRConstraint(2.0)": (lambda: PAPRConstraint(max_papr=2.0), False),
         "PerAntennaPowerConstraint": (lambda: PerAntennaPowerConstraint(uniform_power=0.7), False),
         "PeakAmplitudeConstraint": (lambda: PeakAmplitudeConstraint(1.0), False),
     }
@@ -286,13 +290,13 @@ def corr(ctx):
                 x = torch.randn(shape, dtype=D, generator=g) * rng.choice([0.3, 1.0, 4.0])
                 if cplx:
                     x = torch.complex(x, torch.randn(shape, dtype=D, generator=g))
-                if sname in ("PeakAmplitudeConstraint", "PAPRConstraint"):
+                if sname == "PeakAmplitudeConstraint" or sname.startswith("PAPRConstraint"):
                     pass     # piecewise smooth: random inputs are almost surely away from the kinks
                 try:
                     st = mk()
                     dev, detail = fd_check(lambda t: st(t), x, seed=5 + ctx.seed, eps=(2e-3 if snr_mode else 1e-6))
                     tol = 3e-3 if snr_mode else 2e-6
-                    if sname in ("PeakAmplitudeConstraint", "PAPRConstraint") and dev > tol:
+                    if (sname == "PeakAmplitudeConstraint" or sname.startswith("PAPRConstraint")) and dev > tol:
                         dev2, detail2 = fd_check(lambda t: st(t), x, seed=5 + ctx.seed, eps=1e-8)
                         dev, detail = min(dev, dev2), detail2 if dev2 < dev else detail
                         tol = 1e-4
